@@ -62,6 +62,12 @@ def cases(tier, rng):
                    "wire a", "wire b", "wire c"]
             out.append("f%d.%s sock SUB / %s" % (k, bad, " / ".join(ops)))
             k += 1
+            # ... and a peer that joins after the failed updates must be told the same set as the early peers
+            for tail in (["unsub 41"], ["unsub 41", "sub 43"], ["unsub 41", "unsub 42"], ["sub 42", "unsub 41", "sub 41", "unsub 41"]):
+                ops = ["attach a PUB", "attach b PUB", "attach c PUB", "sub 41", "sub 42", "wmode %s %s" % (bad, kind)] + tail + [
+                    "attach d PUB", "wire a", "wire b", "wire c", "wire d"]
+                out.append("f%d.%s sock SUB / %s" % (k, bad, " / ".join(ops)))
+                k += 1
     # a connection failing while its subscriptions are replayed
     out.append("r%d sock SUB / sub 41 / attach a PUB / attach b PUB wplan=a,a wmode=broken=BrokenPipe / sub 42 / wire a" % k)
     k += 1
